@@ -121,6 +121,10 @@ def calculations(rng, pp):
         ("calc_sc_1ph", "sc_1ph", lambda n: sc.calc_sc(n, fault="1ph", case="max")),
         ("contingency", "powerflow", lambda n: run_contingency(n, {"line": {"index": [int(i) for i in list(n.line.index)[:3]]}},
                                                               raise_errors=rng.random() < 0.5)),
+        # an N-1 case whose evaluation raises, with raise_errors=True: the exception leaves run_contingency
+        ("contingency_raise", "powerflow", lambda n: run_contingency(
+            n, {"line": {"index": [int(i) for i in list(n.line.index[n.line.in_service])[:3]]}}, raise_errors=True,
+            contingency_evaluation_function=_failing_eval(pp, int(n.line.in_service.sum())))),
     ]
 
 
@@ -141,6 +145,15 @@ def bfsw_net(rng, pp):
     a, c = rng.sample(b[1:], 2)
     pp.create_dcline(net, a, c, p_mw=rng.choice([5., 15.]), loss_percent=1., loss_mw=0.1, vm_from_pu=rng.choice([1.0, 1.02]), vm_to_pu=1.01)
     return net
+
+
+def _failing_eval(pp, n_in_service):
+    """evaluation function for run_contingency: the base case is solved, every case with a line out raises"""
+    def ev(net, **kwargs):
+        if int(net.line.in_service.sum()) < n_in_service:
+            raise pp.LoadflowNotConverged("N-1 case fails (injected by the harness)")
+        pp.runpp(net, **kwargs)
+    return ev
 
 
 def add_hvdc(rng, pp, net):
